@@ -49,6 +49,37 @@ add("C12", E1 + " + " + E2, "model_checking", "exhaustive enumeration of call se
     "7 option sets x all 155 sequences of <=3 calls over the five entry points through one Config: the last call must write the same files with the same outcome as alone on an independent Config; defaults unchanged; concurrent pairs through one Config under every schedule within the bound give a serial result.",
     NOTE, "§6 C12")
 
+add("C08", E3, "model_checking", "exhaustive enumeration of programs x skip sets x -run patterns x Clean modes, each cell one run of the REAL go test binary of a data-driven module; oracle = trace of what the runner executed",
+    "4 programs x every set of <=2 of 8 tests calling snaps.Skip/Skipf/SkipNow x 25 -run patterns x {report, clean} x sort: every entry/file of a test whose calls did not run (filtered by the real matcher or skipped) must survive Clean unchanged and unlisted; name-prefix siblings of skipped tests stay reportable.",
+    NOTE + " The real testing package schedules the tests; E3 does not control interleavings.", "§6 C08, §5.3")
+add("C11", E3, "model_checking", "exhaustive enumeration of option x API x call-shape combinations inside real test binaries, one run per (package depth, build mode, cwd, GOROOT)",
+    "Dir x Filename (incl. one with a slash) x Ext x 5 APIs x 10 call shapes (direct, closure, helpers in same/other test file, non-test file, other package, 40/70-frame recursion, subtest, goroutine) x depth x {plain, -trimpath flag, -trimpath GOFLAGS} x cwd x GOROOT: each creating call must create exactly one file at the reference location.",
+    NOTE, "§6 C11, §5.3")
+add("C13", E1, "exploration", "exhaustive enumeration of text pairs (all line sequences over small alphabets up to a length bound, long-text edit families) checked on difflib's edit script and on the NO_COLOR report",
+    "All ordered pairs of line sequences over {a,b,c} up to length 4/5, over blank/diff-markup/invalid-UTF-8 alphabets, long texts with single and double edits: report empty iff texts byte-identical; header counts = body lines; '-'/'+' lines belong to stored/received; multiset identity; opcodes tile, equal ranges identical, replay yields the second text, hunks omit no change. Depth-1 exploration, exhaustive within the bounds.",
+    NOTE, "§6 C13")
+add("C14", E1, "exploration", "exhaustive enumeration of a bounded JSON document grammar x presentations x input forms x format options; invalid inputs by prefix/corruption enumeration against encoding/json",
+    "Every document of the grammar x 4 whitespace styles x 3 member orders x {string, []byte}, the forms of its standard encoding (Go value, RawMessage, pointer, struct), 24 option sets: identical stored text, same decoded value, valid standalone JSON, no framing-like line; inputs encoding/json rejects fail once, write nothing, keep later slots.",
+    NOTE, "§6 C14")
+add("C15", E1, "exploration", "exhaustive enumeration of documents x EVERY member/element path x placeholders x matcher kinds with ordered-tree comparison against a reference replacement",
+    "JSON (C14 grammar) and YAML documents x every path (with escapes) x 31 placeholders (incl. strings YAML could misread) x {Any, Type, Custom} x {matcher method, Match* API with string/[]byte}; multi-path matchers and matcher pairs left to right: result valid and equal to the input tree with exactly that node replaced; caller's []byte untouched.",
+    NOTE, "§6 C15")
+add("C16", E1, "model_checking", "exhaustive enumeration of documents x masked path sets x matcher kinds x value variants; record(A); replay(A') on the real code",
+    "Documents x every set of <=2 masked paths x {Any, Type, Custom, one reused matcher value} x {MatchJSON, MatchStandaloneJSON, MatchYAML flow/block}: variants differing only under the mask store identical bytes and pass both ways; variants differing at any unmasked leaf (incl. numbers equal as float64 but different as text) fail once and modify nothing.",
+    NOTE, "§6 C16")
+add("C17", E1, "model_checking", "exhaustive enumeration of matcher lists over 10 atom kinds x ErrOnMissingPath x mode x slot state x API on the real code",
+    "Every list of <=2/3 matcher atoms (satisfied, missing path via Any/Type/Custom on one shared path, wrong Type, failing Custom, unparsable YAML path) x ErrOnMissingPath x {create, UPDATE_SNAPS=true, Update(true), CI} x slot x 3 APIs: one failure naming every failing matcher/path and no satisfied one, no write, next call keeps slot 2; with ErrOnMissingPath(false) same result as without the missing-path matchers.",
+    NOTE, "§6 C17")
+add("C18", E1, "model_checking", "exhaustive enumeration of YAML texts over a line alphabet (<=3/4 lines) x endings x input forms; record; replay on the real code; Go values across processes",
+    "Every text of <=3/4 lines over 14 YAML line tokens x 4 endings x {string, []byte}: valid ones are stored verbatim (unframe(unescape(body)) == input), replay passes without writing; invalid ones fail once and write nothing; Go values marshal to identical text 21x in-process and in 3 fresh processes.",
+    NOTE + " Validity oracle is the YAML library go-snaps uses.", "§6 C18")
+add("C19", E1, "model_checking", "exhaustive enumeration of byte-string values (token sequences incl. CR) x call counts x executions x names x options; record/replay/update on the real code",
+    "All byte strings of <=2/3 tokens, Go values, JSON documents; 1..3 standalone calls x 1..3 executions x nested/percent/#01 names x Filename/Ext: file k holds exactly the formatted value of call k, MatchStandaloneJSON files are valid JSON, replay passes, update replaces the file wholesale.",
+    NOTE, "§6 C19")
+add("C20", E1 + " + " + E2, "model_checking", "exhaustive enumeration of operation histories over 16 op kinds followed by Clean, and the same operations from 2-3 threads under every schedule within the preemption bound; free-running -race pass",
+    "Every history of <=2/3 ops (each API x pass/added/updated/failed by mismatch, invalid input, matcher error; Skip/Skipf/SkipNow/child skip) plus length-6 windows, then Clean with 0..2 obsolete items x sort x CI per UPDATE_SNAPS process: exactly one signal per call, summary totals and obsolete lists equal the model's; concurrent histories under every schedule.",
+    NOTE, "§6 C20")
+
 def main():
     only = None
     try:
